@@ -141,11 +141,11 @@ import sys, contextlib, datetime
 
 
 class _FakeTime:
-    def __init__(self, now):
-        self._now = now
+    def __init__(self, now, frac=0.25):
+        self._now, self._frac = now, frac
 
     def time(self):
-        return float(self._now) + 0.25
+        return float(self._now) + self._frac
 
     def __getattr__(self, n):
         import time as _t
